@@ -114,6 +114,7 @@ pub struct Report {
     pub paths_with_checks: u64,
     pub discharged_syntactically: u64,
     pub fallback_queries: u64,
+    pub fallback_time_s: f64,
 }
 
 impl Report {
@@ -162,6 +163,7 @@ impl Report {
         self.paths_with_checks += o.paths_with_checks;
         self.discharged_syntactically += o.discharged_syntactically;
         self.fallback_queries += o.fallback_queries;
+        self.fallback_time_s += o.fallback_time_s;
     }
     pub fn to_json(&self) -> serde_json::Value {
         serde_json::json!({
@@ -178,6 +180,7 @@ impl Report {
             "checks_discharged": self.checks_discharged,
             "discharged_syntactically": self.discharged_syntactically,
             "fallback_queries": self.fallback_queries,
+            "fallback_time_s": (self.fallback_time_s*1000.0).round()/1000.0,
             "checks_by_name": self.checks_by_name,
             "covers": self.covers,
             "violation_counts": self.violation_counts,
@@ -433,7 +436,14 @@ impl Ctx {
     fn timed<R>(&mut self, f: impl FnOnce(&mut solver::Solver) -> R) -> R {
         let t0 = Instant::now();
         let r = f(self.solver());
-        self.rep.solver_time_s += t0.elapsed().as_secs_f64();
+        let dt = t0.elapsed().as_secs_f64();
+        self.rep.solver_time_s += dt;
+        if dt > 2.0 && std::env::var("SYMRT_DEBUG").is_ok() {
+            eprintln!("SLOW {:.1}s; pc:", dt);
+            for t in &self.pc {
+                eprintln!("   {}", self.smt(*t));
+            }
+        }
         r
     }
 
@@ -617,6 +627,7 @@ impl Ctx {
             let t0 = Instant::now();
             r = solver::oneshot_robust(&script, &[], false).map(|m| m.is_some());
             self.rep.solver_time_s += t0.elapsed().as_secs_f64();
+            self.rep.fallback_time_s += t0.elapsed().as_secs_f64();
         }
         if r.is_none() {
             self.rep.inconclusive += 1;
@@ -631,7 +642,9 @@ impl Ctx {
         if r.is_none() {
             self.rep.fallback_queries += 1;
             let script = self.standalone(None);
+            let t0 = Instant::now();
             r = solver::oneshot_robust(&script, &vars, true);
+            self.rep.fallback_time_s += t0.elapsed().as_secs_f64();
         }
         match r {
             Some(Some(m)) => {
@@ -737,6 +750,30 @@ pub fn bin(op: Op, a: T, b: T) -> T {
             } else {
                 c.mk(Node::Const(v, w), w)
             };
+        }
+        // neutral elements
+        let za = matches!(&c.arena[a as usize], Node::Const(v, _) if *v == U256::ZERO);
+        let zb = matches!(&c.arena[b as usize], Node::Const(v, _) if *v == U256::ZERO);
+        match op {
+            Op::Xor | Op::Add | Op::BvOr if za => return b,
+            Op::Xor | Op::Add | Op::BvOr | Op::Sub if zb => return a,
+            Op::And => {
+                if let Node::BConst(x) = c.arena[a as usize] {
+                    return if x { b } else { a };
+                }
+                if let Node::BConst(x) = c.arena[b as usize] {
+                    return if x { a } else { b };
+                }
+            }
+            Op::Or => {
+                if let Node::BConst(x) = c.arena[a as usize] {
+                    return if x { a } else { b };
+                }
+                if let Node::BConst(x) = c.arena[b as usize] {
+                    return if x { b } else { a };
+                }
+            }
+            _ => {}
         }
         if a == b {
             match op {
@@ -1072,7 +1109,9 @@ pub fn check(name: &str, cond: T) -> bool {
         if r.is_none() {
             c.rep.fallback_queries += 1;
             let script = c.standalone(Some(&s));
+            let t0 = Instant::now();
             r = solver::oneshot_robust(&script, &vars, true);
+            c.rep.fallback_time_s += t0.elapsed().as_secs_f64();
         }
         // optional cross-check with z3
         let do_cross = c.crosscheck_every > 0
